@@ -109,7 +109,14 @@ def _call(ev: dict, watch: list) -> dict:
             mats = [bind.lay(np.array(m, dtype=(kinds[j % len(kinds)] if np.all(np.array(m) == np.round(np.array(m))) else float)))
                     for j, m in enumerate(a["mats"])]
             watch += [(m, m.copy()) for m in mats]
-            r = ttb.khatrirao(*mats, reverse=bool(a["reverse"]))
+            if bind.get_layout() in ("swapped", "strided"):
+                # a flag that comes out of a numpy comparison: it is either refused or honoured, never ignored
+                try:
+                    r = ttb.khatrirao(*mats, reverse=np.bool_(a["reverse"]))
+                except ValueError:
+                    r = ttb.khatrirao(*mats, reverse=bool(a["reverse"]))
+            else:
+                r = ttb.khatrirao(*mats, reverse=bool(a["reverse"]))
             return {"st": "ok", "m": bind.matrix(r)}
     except bind.Inexact as e:
         return {"st": "inexact", "msg": str(e)[:200]}
